@@ -162,6 +162,17 @@ def run(chk):
     drv = Driver()
     sig_programs(chk, 500 if chk.tier == 'quick' else 5000)
     scs = exit_scenarios(rng, 330 if chk.tier == 'quick' else 5500)
+    # Ctrl-C at EVERY scheduling point of the caller during one or two whole calls (also while the call is shutting its workers and
+    # helper threads down): whatever is interrupted, leaving the pool afterwards leaves nothing behind
+    from harness import inject
+    bases = []
+    for _ in range(1 if chk.tier == 'quick' else 6):
+        bases.append({'seed': rng.randint(0, 10 ** 6), 'cause': 'sigint', 'pool': {'n_jobs': rng.choice([2, 3]), 'start_method': 'fork'},
+                      'ops': [{'op': rng.choice(['map', 'imap_unordered']), 'n': rng.randint(4, 8), 'chunk_size': 1, 'worker_lifespan': rng.choice([None, 2]),
+                               'exit': rng.random() < .5, 'dur': {'kind': 'hash', 'salt': rng.randint(0, 99), 'unit': 0.01}}]})
+    for sc, bo in zip(bases, inject.baseline(bases)):
+        if not bo.get('stuck') and not bo.get('harness_error'):
+            scs += inject.sigint_sweep(sc, bo, stride=1 if chk.tier == 'quick' else 2)
     for sc in scs:
         sc['want_shutdown'] = True
     obs = par.run_all(scs)
